@@ -24,6 +24,9 @@ type Case struct {
 	Every int          `json:"every,omitempty"` // mass graphs: read the whole RIB back only every n-th step
 	// ReElect (L2): the session raises its own election id after every n-th request
 	ReElect int `json:"reelect,omitempty"`
+	// Bystander (L2) > 0: a second session announced the same election id before the session did
+	// and goes away before this step (l2.Opts.Bystander)
+	Bystander int `json:"bystander,omitempty"`
 }
 
 func setup() {
@@ -39,7 +42,7 @@ func runCase(c Case) *ev.Verdict {
 	var v *ev.Verdict
 	var tr *l1.Trace
 	if c.Level == "L2" {
-		v, tr = l2.RunHistory(c.H, l2.Opts{P: "C02", Trusted: true, Batch: c.Batch, ReElect: c.ReElect})
+		v, tr = l2.RunHistory(c.H, l2.Opts{P: "C02", Trusted: true, Batch: c.Batch, ReElect: c.ReElect, Bystander: c.Bystander})
 	} else {
 		v, tr = l1.Run(c.H, l1.Opts{P: "C02", Trusted: true, Closure: true, ObserveEvery: c.Every})
 	}
@@ -263,6 +266,8 @@ func drawGraph(rt *rapid.T) Case {
 		c.Batch = []int{rapid.IntRange(1, 5).Draw(rt, "batch")}
 		if rapid.Bool().Draw(rt, "reelect?") {
 			c.ReElect = rapid.IntRange(1, 3).Draw(rt, "reelect")
+		} else if len(c.H.Steps) > 1 && rapid.Bool().Draw(rt, "bystander?") {
+			c.Bystander = rapid.IntRange(1, len(c.H.Steps)-1).Draw(rt, "bystander")
 		}
 	}
 	return c
